@@ -690,10 +690,7 @@ func runFpProgram(c *Ctx, pi int, p fpProgram) (mlines, mimpl []string) {
 			}
 			obj := p.Objects[oi]
 			_, isLocal := local[ptr.Oid]
-			where := obj.Where
-			if where == "stale" {
-				where = "server" // not local: a file of the wrong size is not the object
-			}
+			where := obj.Where // `stale` goes to the model as it is (FP.Where.stale)
 			if isLocal {
 				where = "local"
 			}
@@ -711,7 +708,7 @@ func runFpProgram(c *Ctx, pi int, p fpProgram) (mlines, mimpl []string) {
 					return
 				}
 				switch where {
-				case "local", "server":
+				case "local", "server", "stale":
 					if a.Status != "success" || !bytes.Equal(a.Content, obj.Content) || (a.Final != "" && a.Final != "success") {
 						fail("smudge did not return the object's bytes", obs)
 					} else {
